@@ -57,9 +57,12 @@ package sourcebundle
 //@   requires pre.walk: segUnder(Clean(absPath), Clean(root)) && absPath != ""
 //@   frame C10.prepare.frame: segUnder(Clean(_p), Clean(root))
 //@   ensures C03,C10.prepare.excluded-is-removed: err == nil && (rerr == nil || rerr == filepath.SkipDir) && Rel(root, absPath) != "."
-//@       && (excl(ignoreRules, Rel(root, absPath)) || (modeDirBit(fileMode(info)) && domin(ignoreRules, Rel(root, absPath) + "/"))) ==> $lastRemoved == absPath
+//@       && ((!modeDirBit(fileMode(info)) && excl(ignoreRules, Rel(root, absPath)))
+//@           || (modeDirBit(fileMode(info)) && (domin(ignoreRules, Rel(root, absPath)) || domin(ignoreRules, Rel(root, absPath) + "/")))) ==> $lastRemoved == absPath
 //@   ensures C03,C10.prepare.kept-not-removed: err == nil && !excl(ignoreRules, Rel(root, absPath)) && !(modeDirBit(fileMode(info)) && excl(ignoreRules, Rel(root, absPath) + "/")) ==> $lastRemoved == ""
-//@   at-call os.RemoveAll#2 C03.prepare.dir-removal-dominating: domin(ignoreRules, Rel(root, absPath) + "/")
+//@   ensures C03.prepare.reincludable-kept: err == nil && modeDirBit(fileMode(info)) && !domin(ignoreRules, Rel(root, absPath)) && !domin(ignoreRules, Rel(root, absPath) + "/") ==> $lastRemoved == ""
+//@   at-call os.RemoveAll#2 C03.prepare.dir-removal-dominating: domin(ignoreRules, Rel(root, absPath)) || domin(ignoreRules, Rel(root, absPath) + "/")
 //@   ensures C10.prepare.kept-is-safe: err == nil && rerr == nil && $lastRemoved == "" && Rel(root, absPath) != "."
+//@       && !(modeDirBit(fileMode(info)) && (excl(ignoreRules, Rel(root, absPath)) || excl(ignoreRules, Rel(root, absPath) + "/")))
 //@       ==> isLocalPath(Rel(RealPath(Abs(root)), RealPath(Join(RealPath(Abs(root)), Rel(root, absPath)))))
 //@   ensures C03,C10.prepare.skip-only-removed: err == nil && rerr == filepath.SkipDir ==> $lastRemoved == absPath
